@@ -346,4 +346,16 @@ def r_shared_r9(ctx):
 
 EXPLANATION = EXPLANATION + " (R8) ack number and bitmap travel intact in the header, and every message keeps its number (shared C09.R1, C09.R2). (R9) a pending datagram is resolved as acked exactly when the peer's receive window recorded it: header fill, decode geometry and duplicate cells (shared C08.R4, C08.R5)."
 
-RULES = [("C07.R1", r1), ("C07.R2", r2), ("C07.R3", r3), ("C07.R4", r4), ("C07.R5", r_enum), ("C07.R6", r6), ("C07.R7", r7), ("C07.R8", r_shared_r8), ("C07.R9", r_shared_r9)]
+def r_shared_r10(ctx):
+    """an ack is success only if the peer accepted the message: the datagram is acknowledged before its messages are looked at, so a
+    message that _recv_message then drops for any reason other than being a duplicate it has really seen is reported delivered and
+    never is (shared C05.R8: the receiver refuses a message only in the DuplicationError handler of BitField.insert)"""
+    from . import c05 as _m
+    from .c02 import _Sub
+    _m.r8(_Sub(ctx, "C07.R10"))
+
+
+EXPLANATION = EXPLANATION + ' (R10) the receiver drops a message before dispatch only as a duplicate it has really seen (shared C05.R8): the datagram that carried it is acknowledged either way, so any other drop turns into a success report for a message the peer never accepted.'
+
+RULES = [("C07.R1", r1), ("C07.R2", r2), ("C07.R3", r3), ("C07.R4", r4), ("C07.R5", r_enum), ("C07.R6", r6), ("C07.R7", r7), ("C07.R8", r_shared_r8), ("C07.R9", r_shared_r9),
+         ("C07.R10", r_shared_r10)]
